@@ -96,3 +96,15 @@ Theorem C19_source_impl_methods :
   methods_of "ConstDefault for GenericArray<T,U>" = Some ["DEFAULT"].
 Proof. repeat split. Qed.
 
+
+(* ---- T1: the one-expression bodies this property's code consists of besides the modelled core, as they stand
+        in the source now (coq/gen/GenSigs.v gen_thin_bodies) ---- *)
+From Coq Require Import String.
+From GA Require Import SigTie.
+From GAGen Require Import GenSigs.
+Local Open Scope string_scope.
+
+Theorem C19_source_thin_bodies :
+  thin_of "Zeroize for GenericArray<T,N>" "zeroize" = Some "self . as_mut_slice () . iter_mut () . zeroize ()" /\
+  thin_of "GenericArray<T,U>" "const_default" = Some "Self :: DEFAULT".
+Proof. repeat split. Qed.
